@@ -311,3 +311,10 @@ Theorem example_times_array_choice : existsb pshort (hsets F_aut) = true /\ exis
   mapM (convert ms_aut) sel_aut = Ok [Some c0; Some c1; Some c2] /\ in_short F_aut true c0 = false /\ in_short F_aut true c1 = true.
 Proof. exact example_times. Qed.
 Print Assumptions example_times_array_choice.
+
+(** "paired with the matching times": for EVERY content, file, flag and item the series of values has exactly as
+    many entries as the time array returned with it ([fulltimes] or [times]) *)
+Theorem history_values_times_same_length : forall cell F short c,
+  length (stepping_values cell F short c) = length (times_positions F (s_times (stepping_series F short c))).
+Proof. exact values_times_same_length. Qed.
+Print Assumptions history_values_times_same_length.
